@@ -201,6 +201,7 @@ Params(kind, tx) ==
     [] kind = "ctr_alter"   -> IF tx.dcout # <<>> THEN {T(kind, 0, "", 0, "", <<>>)} ELSE {}
     [] kind = "redirect"    -> IF tx.dcout # <<>> THEN {T(kind, 0, "", 0, "", <<>>)} ELSE {}
     [] kind = "cin_omit"    -> IF tx.dcin > 0 THEN {T(kind, 0, "", 0, "", <<>>)} ELSE {}
+    [] kind = "cin_extra"   -> IF tx.dcin < NU THEN {T(kind, 0, "", 0, "", <<>>)} ELSE {}
     [] kind = "req_drop"    -> {T(kind, 0, "", 0, "", <<>>)}
     [] OTHER -> {}
 Bump(fee) == (IF fee < 0 THEN 0 ELSE fee) + 1
@@ -223,6 +224,7 @@ Tampered(tx, t, k) ==
     [] t.tk = "ctr_alter"   -> [tx EXCEPT !.dcout[1].to = "a"]
     [] t.tk = "redirect"    -> [tx EXCEPT !.rout = <<[to |-> "a", amt |-> SumAmt(tx.dcout)]>>]
     [] t.tk = "cin_omit"    -> [tx EXCEPT !.rin = 0]
+    [] t.tk = "cin_extra"   -> [tx EXCEPT !.dcin = @ + 1, !.rin = @ + 1]      \* one more utxo of the vault declared and spent; the surplus is the client's change
     [] t.tk = "req_drop"    -> [tx EXCEPT !.hasreq = FALSE]
 
 (* ------------------------------------------------------------------ verification --- *)
@@ -302,6 +304,8 @@ DoSubmit(t) ==
      /\ kv' = o.kv /\ bal' = o.bal
      /\ sub' = [tx |-> tx, t |-> t, res |-> o.res, kv0 |-> kv, bal0 |-> bal]
      /\ Log([op |-> "submit", tk |-> t.tk, n |-> t.n, v |-> t.v, j |-> t.j, d |-> t.d, prog |-> ExtProg(t.prog), res |-> o.res,
+             \* which of the two calls refuses (informative: the property speaks about the outcome of both together)
+             stage |-> IF o.res = "admit" THEN "" ELSE IF VerifyF(Flags, tx, kv) THEN "dotx" ELSE "verify",
              dv |-> {KFName(d) : d \in {d \in {"unbound", "st500", "nested"} : Flags[d] /\ Outcome([Flags EXCEPT ![d] = FALSE], tx, kv, bal) # o}}])
   /\ phase' = "done"
   /\ UNCHANGED <<prog, amt, resp, il, tkind>>
@@ -326,7 +330,8 @@ RespObs(rp) ==
    wr |-> LET s == SetToSortSeq({n \in Keys : rp.wr[n] # NoWrite}, <) IN [i \in 1..Len(s) |-> [n |-> s[i], v |-> rp.wr[s[i]]]],
    ev |-> rp.ev, cin |-> rp.cin, cout |-> rp.cout, tcin |-> rp.cin, tcout |-> rp.cout,     \* Flush wrote the utxo sets into the transient bucket
    gas |-> rp.gas, lim |-> rp.lim, other |-> <<>>]
-Obs == [keys |-> [k \in Keys |-> kv[k]], bal |-> bal, resp |-> RespObs(resp)]
+(* transient: the versions of the three records of the transient bucket (utxo inputs, utxo outputs, events), which no commit may store *)
+Obs == [keys |-> [k \in Keys |-> kv[k]], bal |-> bal, transient |-> <<"none", "none", "none">>, resp |-> RespObs(resp)]
 
 (* ------------------------------------------------------------------ invariants ----- *)
 Done == phase = "done" /\ sub.res # ""
@@ -348,7 +353,7 @@ CommitExact ==
                              /\ bal.a = sub.bal0.a - amt - resp.gas /\ bal.c = sub.bal0.c + amt
 (* each single tampering that makes the transaction claim something its execution does not produce, or pay less, is refused *)
 MustReject == {"read_ver", "write_drop", "write_add", "write_val", "limit_below", "fee_below", "amt_req", "amt_out",
-               "ev_alter", "ev_drop", "ctr_alter", "redirect", "cin_omit"}
+               "ev_alter", "ev_drop", "ctr_alter", "redirect", "cin_omit", "cin_extra"}
 TamperRejected == (Done /\ sub.t.tk \in MustReject) => sub.res = "reject"
 (* a declared read that is not current *)
 StaleRejected == (Done /\ il # 0 /\ sub.tx.rd[il] # Undecl) => sub.res = "reject"
